@@ -74,6 +74,9 @@ pub fn xpt(args: &[&str]) -> String {
     if args.len() == 3 && args[0] == "over" {
         return over(args[1], args[2]);
     }
+    if args.len() == 2 && args[0] == "rawaddr" {
+        return rawaddr(args[1]);
+    }
     if args.len() != 6 {
         return "BADARG".into();
     }
@@ -134,10 +137,15 @@ pub fn xpt(args: &[&str]) -> String {
             drop(tx);
         }
         "unix" => {
-            let bufs = if n % 2 == 0 { Some(262144) } else { None };
+            // new_with_skbuf(name, sndbuf, rcvbuf): both given / neither / only a small receive buffer
+            let (sbuf, bufs) = match n % 3 {
+                0 => (Some(262144), Some(262144)),
+                1 => (None, None),
+                _ => (None, Some(4096)),
+            };
             receiver = if mode == "b" {
                 let r = if skbuf {
-                    portus::ipc::unix::Socket::<Blocking>::new_with_skbuf(&rpath, bufs, bufs)
+                    portus::ipc::unix::Socket::<Blocking>::new_with_skbuf(&rpath, sbuf, bufs)
                 } else {
                     portus::ipc::unix::Socket::<Blocking>::new(&rpath)
                 };
@@ -147,7 +155,7 @@ pub fn xpt(args: &[&str]) -> String {
                 }
             } else {
                 let r = if skbuf {
-                    portus::ipc::unix::Socket::<Nonblocking>::new_with_skbuf(&rpath, bufs, bufs)
+                    portus::ipc::unix::Socket::<Nonblocking>::new_with_skbuf(&rpath, sbuf, bufs)
                 } else {
                     portus::ipc::unix::Socket::<Nonblocking>::new(&rpath)
                 };
@@ -160,7 +168,19 @@ pub fn xpt(args: &[&str]) -> String {
             for s in 0..n {
                 let name = format!("{}-s{}", tag, s);
                 sender_paths.push(format!("/tmp/ccp/{}", name));
-                let sock = match portus::ipc::unix::Socket::<Blocking>::new(&name) {
+                // in skbuf mode the senders are built with the same constructor and sizes (a small RECEIVE buffer must not limit
+                // what an endpoint can SEND)
+                let made = if skbuf {
+                    let (sb, rb) = match n % 3 {
+                        0 => (Some(262144), Some(262144)),
+                        1 => (None, None),
+                        _ => (None, Some(4096)),
+                    };
+                    portus::ipc::unix::Socket::<Blocking>::new_with_skbuf(&name, sb, rb)
+                } else {
+                    portus::ipc::unix::Socket::<Blocking>::new(&name)
+                };
+                let sock = match made {
                     Ok(s) => s,
                     Err(_) => return "SOCKERR".into(),
                 };
@@ -340,4 +360,57 @@ fn over(kind: &str, mode: &str) -> String {
     }
     let _ = std::fs::remove_file(format!("/tmp/ccp/{}-r", tag));
     format!("OVER {}", out.join(" "))
+}
+
+
+/// `XPT rawaddr <b|nb>`: the sender is a foreign Unix datagram socket (std) bound at a path that is NOT valid UTF-8 (a C
+/// datapath can bind anywhere): the address `recv` returns must be that path byte for byte, and a reply sent to it must arrive.
+fn rawaddr(mode: &str) -> String {
+    use std::os::unix::ffi::OsStrExt;
+    let tag = format!("vp{}-{}", std::process::id(), UNIQ.fetch_add(1, Ordering::SeqCst));
+    let rname = format!("{}-r", tag);
+    let mut raw: Vec<u8> = format!("/tmp/ccp/{}-s", tag).into_bytes();
+    raw.extend_from_slice(&[0xE9, 0xFF, b'x']);
+    let spath = PathBuf::from(std::ffi::OsStr::from_bytes(&raw));
+    let recv_once = |r: &dyn Fn(&mut [u8]) -> portus::Result<(usize, PathBuf)>| {
+        let mut buf = [0u8; 64];
+        let t = Instant::now();
+        loop {
+            match r(&mut buf) {
+                Ok((n, a)) => return Some((buf[..n].to_vec(), a)),
+                Err(_) if t.elapsed() < Duration::from_secs(3) => std::thread::yield_now(),
+                Err(_) => return None,
+            }
+        }
+    };
+    let res = std::panic::catch_unwind(|| {
+        let _ = std::fs::create_dir_all("/tmp/ccp");
+        let _ = std::fs::remove_file(&spath);
+        let (got, reply_ok);
+        let peer;
+        if mode == "b" {
+            let r = portus::ipc::unix::Socket::<Blocking>::new(&rname).ok()?;
+            peer = std::os::unix::net::UnixDatagram::bind(&spath).ok()?;
+            peer.send_to(b"ping", format!("/tmp/ccp/{}", rname)).ok()?;
+            got = recv_once(&|b| r.recv(b))?;
+            reply_ok = r.send(b"pong", &got.1).is_ok();
+        } else {
+            let r = portus::ipc::unix::Socket::<Nonblocking>::new(&rname).ok()?;
+            peer = std::os::unix::net::UnixDatagram::bind(&spath).ok()?;
+            peer.send_to(b"ping", format!("/tmp/ccp/{}", rname)).ok()?;
+            got = recv_once(&|b| r.recv(b))?;
+            reply_ok = r.send(b"pong", &got.1).is_ok();
+        }
+        let _ = peer.set_read_timeout(Some(Duration::from_secs(2)));
+        let mut b2 = [0u8; 16];
+        let arrived = matches!(peer.recv(&mut b2), Ok(4)) && &b2[..4] == b"pong";
+        Some((got.0 == b"ping", got.1.as_os_str().as_bytes() == &raw[..], reply_ok && arrived))
+    });
+    let _ = std::fs::remove_file(&spath);
+    let _ = std::fs::remove_file(format!("/tmp/ccp/{}", rname));
+    match res {
+        Ok(Some((d, a, r))) => format!("RAWADDR data_ok={} addr_ok={} reply_ok={}", d as u8, a as u8, r as u8),
+        Ok(None) => "RAWADDR SOCKERR".into(),
+        Err(_) => "RAWADDR PANIC".into(),
+    }
 }
